@@ -25,9 +25,11 @@ func (g *gen) path(d int, allowPred bool) *xp.Path {
 	p := &xp.Path{Root: []string{"rel", "rel", "abs", "cur"}[g.pick(4, "root")]}
 	n := 1 + g.pick(3, "nsteps")
 	for i := 0; i < n; i++ {
-		switch g.pick(6, "stepkind") {
+		switch g.pick(7, "stepkind") {
 		case 0:
 			p.Steps = append(p.Steps, xp.Step{Kind: "up"})
+		case 6:
+			p.Steps = append(p.Steps, xp.Step{Kind: "self"})
 		default:
 			st := xp.Step{Kind: "name", Name: []string{"a", "b", "c", "div", "and", "mod", "or", "x-y", "n1"}[g.pick(9, "name")]}
 			if g.pick(4, "pfx") == 0 {
